@@ -138,6 +138,7 @@ def gen_plan(rng, tier="quick"):
         "gap_mean": rng.choice([1, 1, 2, 2, 3, 5, 8, 15, 40]),
         "p_dup": rng.choice([0, 0, 0.05, 0.3]),
         "p_stall": rng.choice([0, 0, 0.03, 0.1]),
+        "dup_concurrent": rng.random() < 0.5,
         "d": rng.randint(1, 3),
         "expected_points": rng.choice([200, 1000, 5000]),
     }
@@ -465,4 +466,4 @@ ASSUMPTIONS = [
     "interleaving is controlled at Python-line granularity inside wavespectra files and at the yield points of specpart.c (only when the calling thread has released the GIL); numpy/scipy/xarray internals run atomically under the baton",
     "clause 2 tolerances: bit-exact for partitions/splits/to_energy; rtol 1e-9 (float64) for reductions that cross chunks; 1e-6 for cancellation-prone widths; 2e-3 for fits; a tolerance-class mismatch is discarded when a 1-ulp perturbation of the input moves the in-memory answer as much (conditioning guard)",
 ]
-PROBES = ["sync_ok", "max_tasks_in_flight", "preempt_inside_task", "fault.duplicate", "fault.stall", "fault.preempt_py", "c_sites_gil_held", "rendezvous_met"]
+PROBES = ["sync_ok", "max_tasks_in_flight", "preempt_inside_task", "fault.duplicate", "fault.duplicate_concurrent", "fault.stall", "fault.preempt_py", "c_sites_gil_held", "rendezvous_met"]
